@@ -153,6 +153,13 @@ def c01(ctx):
     p_py.py_units(ctx, ctx.tier == 'quick')
     c01_impl(ctx, 1500, 25000, gen_verify_case, 'tree:verify',
              'verification verdict differs from the reference (C01: success iff every entry matches and every walked file is covered)')
+    # directory symlinks to siblings / other directories are followed and their files treated like any others
+    r = ctx.rng('c01graphs')
+    specs, _ = graph_cases(r, True)
+    specs = [s for s in specs if len(s[0]) >= 3][:400] if ctx.tier == 'quick' else specs[::3]
+    it = iter(specs)
+    c01_impl(ctx, len(specs), len(specs), lambda rr: graph_case(next(it)), 'tree:verify-symlink-graphs',
+             'verification of a tree with directory symlinks differs from the reference (C01)')
 
 
 # --------------------------------------------------------------------------- C07
@@ -375,3 +382,183 @@ def c06(ctx):
         if i[0] == 'ok' and i[1] and i[1][0][0] == 'err' and i[1][0][1][0] == 'OSError' and i[1][0][1][1] == c.faults[0][2]:
             hit += 1
     ctx.cov['engines']['tree:faults']['runs_ending_with_the_injected_error'] = hit
+
+
+# --------------------------------------------------------------------------- C16
+def graph_cases(r, quick):
+    """directory graphs: every rooted tree shape with <= 4 directories below the root x every set of <= 3 extra
+    directory edges (symlinks: self, parent, ancestor, sibling, mutual, chains) x IGNORE placement x mode"""
+    import itertools
+    shapes = []
+    for n in range(1, 5):
+        for parents in itertools.product(*[range(0, i) for i in range(1, n + 1)]):
+            shapes.append(parents)          # parents[i-1] = parent of dir i (0 = root)
+    all_cases = []
+    for parents in shapes:
+        n = len(parents)
+        pairs = [(s, t) for s in range(0, n + 1) for t in range(0, n + 1)]
+        for k in range(0, 4):
+            for edges in itertools.combinations(pairs, k):
+                all_cases.append((parents, edges))
+    if quick:
+        picked = [all_cases[i] for i in sorted(r.sample(range(len(all_cases)), 700))]
+        # always include the deeper shapes with sibling links (shared-list aliasing shows there)
+        picked += [c for c in all_cases if len(c[0]) == 4 and len(c[1]) == 1][:200]
+    else:
+        small = [c for c in all_cases if len(c[0]) <= 3]
+        big = [c for c in all_cases if len(c[0]) == 4]
+        picked = small + [big[i] for i in sorted(r.sample(range(len(big)), 12000))]
+    out = []
+    for parents, edges in picked:
+        for ign in ((0, 1, 2) if not quick else (r.choice([0, 0, 1, 2]),)):
+            for pol in (0, 1):
+                out.append((parents, edges, ign, pol))
+    return out, len(all_cases)
+
+
+def graph_case(spec, xdev_at=None):
+    parents, edges, ign, pol = spec
+    c = GT.Case()
+    t = GT.Tree()
+    n = len(parents)
+    paths = {0: ''}
+    for i in range(1, n + 1):
+        p = paths[parents[i - 1]]
+        paths[i] = (p + '/' if p else '') + 'd%d' % i
+        t.add_dir(paths[i])
+    lines = []
+    for i in range(0, n + 1):
+        fp = (paths[i] + '/' if paths[i] else '') + 'f%d' % i
+        t.add_file(fp, b'data %d\n' % i)
+        lines.append(ET.entry_line('DATA', fp, b'data %d\n' % i, ['SHA1']))
+    loop_edges = []
+    for j, (s, tg) in enumerate(edges):
+        name = 'l%d' % j
+        t.link(t.lookup(paths[s]), name, t.lookup(paths[tg]))
+        lp = (paths[s] + '/' if paths[s] else '') + name
+        # ancestor-or-self of s ?
+        a = s
+        anc = {s}
+        while a != 0:
+            a = parents[a - 1]
+            anc.add(a)
+        loop_edges.append((lp, tg in anc))
+    if ign and edges:
+        lp = loop_edges[0][0]
+        if ign == 1:
+            lines.append('IGNORE ' + lp)
+        else:
+            d = os.path.dirname(lp)
+            lines.append('IGNORE ' + (d if d else lp))
+    # independent oracle: is a cycle of directory edges reachable from the root?
+    succ = {i: set() for i in range(n + 1)}
+    for i in range(1, n + 1):
+        succ[parents[i - 1]].add(i)
+    for s_, t_ in edges:
+        succ[s_].add(t_)
+    state = {}
+
+    def cyc(v):
+        state[v] = 1
+        for x in succ[v]:
+            if state.get(x) == 1 or (state.get(x) is None and cyc(x)):
+                return True
+        state[v] = 2
+        return False
+    has_cycle = cyc(0)
+    if not has_cycle and edges:
+        # acyclic: list every file under every path it is reachable by, so that the tree is consistent
+        # (directory symlinks are followed and their files treated like any others)
+        names = {i: {} for i in range(n + 1)}
+        for i in range(1, n + 1):
+            names[parents[i - 1]]['d%d' % i] = i
+        for j, (s_, t_) in enumerate(edges):
+            names[s_]['l%d' % j] = t_
+
+        def walk(v, prefix):
+            fp = prefix + 'f%d' % v
+            line = ET.entry_line('DATA', fp, b'data %d\n' % v, ['SHA1'])
+            if line not in lines:
+                lines.append(line)
+            for nm, x in names[v].items():
+                walk(x, prefix + nm + '/')
+        walk(0, '')
+    t.add_file('Manifest', ('\n'.join(lines) + '\n').encode())
+    c.tree = t
+    c.meta.update(dirs=[paths[i] for i in range(n + 1)], files=[], manifests=['Manifest'], mutations=[str(spec)],
+                  order_seed=len(edges), loop_edges=loop_edges, ign=ign, has_cycle=has_cycle)
+    c.ops = [['verify', '', pol, []]]
+    return c
+
+
+def c16(ctx):
+    import signal
+    quick = ctx.tier == 'quick'
+    r = ctx.rng('c16')
+    specs, total = graph_cases(r, quick)
+    cases = [graph_case(s) for s in specs]
+    # a second filesystem mounted in via symlink at any position (directory on device 2)
+    for _ in range(150 if quick else 2000):
+        c = gen_verify_case(r, n_mut=0)
+        GT.mutate(r, c, {p: b'' for p in c.meta['files']}, {m: b'' for m in c.meta['manifests']}, 'xdev-dir')
+        if r.random() < 0.5:
+            GT.mutate(r, c, {p: b'' for p in c.meta['files']}, {m: b'' for m in c.meta['manifests']}, 'dir-symlink')
+        c.allow_xdev = r.random() < 0.3
+        c.meta['mutations'] = ['xdev-dir']
+        c.ops = [['verify', r.choice([''] + [d for d in c.meta['dirs'] if d]), r.choice([0, 1]), []]]
+        cases.append(c)
+
+    def on_alarm(signum, frame):
+        raise TimeoutError('watchdog: the walk did not terminate within 20 s')
+    old = signal.signal(signal.SIGALRM, on_alarm)
+    signal.alarm(0)
+    try:
+        with ET.Scratch() as sc:
+            # the watchdog covers each implementation run
+            orig = ET.run_impl
+
+            def guarded(*a, **k):
+                signal.alarm(20)
+                try:
+                    return orig(*a, **k)
+                except TimeoutError as e:
+                    return ['timeout', str(e)]
+                finally:
+                    signal.alarm(0)
+            ET.run_impl = guarded
+            try:
+                res = run_cases(ctx, cases, 'tree:symlink-graphs', sc)
+            finally:
+                ET.run_impl = orig
+    finally:
+        signal.signal(signal.SIGALRM, old)
+    reclassify(ctx, 'directory symlinks / filesystem boundary: result differs from the reference (C16)')
+    loops = raised = xdev = 0
+    for c, i, m in res:
+        if i[0] == 'timeout':
+            ctx.violation('spec', 'the tree walk did not terminate', {'tree': describe(c.tree), 'ops': c.ops})
+            continue
+        if 'loop_edges' not in c.meta or i[0] != 'ok' or not i[1]:
+            if i[0] == 'ok' and i[1] and i[1][0][0] == 'err' and i[1][0][1][0] == 'ManifestCrossDevice':
+                xdev += 1
+            continue
+        x = i[1][0]
+        has_loop = c.meta['has_cycle']
+        # independent oracle (keep-going mode, no IGNORE): a link to an ancestor-or-self raises the loop error,
+        # and without such a link the loop error is never raised
+        is_loop_err = x[0] == 'err' and x[1][0] == 'ManifestSymlinkLoop'
+        if c.meta['ign'] == 0 and c.ops[0][2] == 1:
+            if has_loop:
+                loops += 1
+                if not is_loop_err:
+                    ctx.violation('spec', f'a directory symlink leads back to an ancestor but the result is {str(x)[:150]}',
+                                  {'tree': describe(c.tree), 'loop_edges': c.meta['loop_edges']})
+                else:
+                    raised += 1
+        if not has_loop and is_loop_err and c.meta['ign'] == 0:
+            ctx.violation('spec', 'ManifestSymlinkLoop raised although no directory symlink leads back to an ancestor',
+                          {'tree': describe(c.tree), 'edges': c.meta['loop_edges'], 'impl': x})
+    ctx.count('tree:symlink-graphs', len(cases), len(cases),
+              samples=[{'shape_parents': specs[5][0], 'extra_edges': specs[5][1], 'ignore': specs[5][2], 'policy': specs[5][3], 'impl': res[5][1]}],
+              dist={'graph_space_total': total, 'loop_graphs_keep_going': loops, 'loop_error_raised': raised,
+                    'cross_device_errors': xdev}, exhaustive=(not quick))
